@@ -72,5 +72,11 @@ for sid in sorted(os.listdir(base)):
     s = sigs[0] if sigs else ("NOT DETECTED" if d.get("exit") == 0 else str(d.get("error", d.get("exit"))))
     if len(s) > 90:
         s = s[:87] + "..."
+    s = s.replace("|", "\\|")
     what, first = desc.get(sid, ("", ""))
     print(f"| {sid} | {what} | {m['property']} `{s}` | {first} |")
+
+import collections
+c = collections.Counter("caught" if v[1].startswith("caught") else ("machinery" if ("exit 2" in v[1] or "crashed" in v[1]) else "missed") for v in desc.values())
+print()
+print("arrival outcomes:", dict(c))
